@@ -484,7 +484,10 @@ func K13() *Entry {
 		"AltHost.Part.PartLabel": AltType("string"), // this occurrence only
 		"AltPart.PartCount":      AltType("int64"),  // every occurrence
 		"AltHost.PickText":       AltType("string"),
+		"AltPart.PartPlain":      AltType("string"), // every occurrence, except the one that is a custom type
 	}
+	// the same field addressed by schema_types (Message.Field) and by custom_types (full path): custom-type hooks own it there
+	c.CustomTypes = map[string]string{"AltHost.Other.PartPlain": "verif/types.Joined"}
 	c.ComputedFields = []string{"AltHost.Label"}
 	c.RequiredFields = []string{"AltHost.Count"}
 	return &Entry{Name: "k13", File: f, Cfg: c, Tags: []string{"schema_types"}}
